@@ -92,9 +92,92 @@ func extractC16(c *ctxT) {
 			leanStr(h.Module), leanStr(h.Recv), leanStr(h.Method), leanStr(h.MsgPkg+"."+h.Msg), shape, sep, h.Where)
 		fh = append(fh, map[string]string{"module": h.Module, "recv": h.Recv, "method": h.Method, "msg": h.MsgPkg + "." + h.Msg, "shape": h.Shape, "cmp": h.Cmp, "where": h.Where})
 	}
+	sb.WriteString("]\n\n")
+	// ---- how the authority each keeper compares against is wired in app/keepers/keepers.go
+	def, wiring := c16Wiring(c)
+	fmt.Fprintf(&sb, "/-- right-hand side of `authAddr := …` in app/keepers/keepers.go -/\ndef authAddrDef : String := %s\n\n", leanStr(def))
+	sb.WriteString("/-- (keeper field assigned, expression passed as the `authority` parameter of an fx-core keeper constructor) -/\ndef wiring : List (String × String) := [\n")
+	for i, w := range wiring {
+		sep := ","
+		if i == len(wiring)-1 {
+			sep = ""
+		}
+		fmt.Fprintf(&sb, "  (%s, %s)%s\n", leanStr(w[0]), leanStr(w[1]), sep)
+	}
 	sb.WriteString("]\n\nend FxVerif.Gen.C16\n")
 	c.write("C16.lean", sb.String())
 	c.facts["C16.handlers"] = fh
+	c.facts["C16.wiring"] = wiring
+}
+
+// c16Wiring reads app/keepers/keepers.go: the definition of authAddr and, for every call of an fx-core `NewKeeper` that
+// has a parameter named `authority`, the argument passed in that position.
+func c16Wiring(c *ctxT) (string, [][2]string) {
+	p := c.pkg("app/keepers")
+	f, ok := p["keepers.go"]
+	if !ok {
+		return "", nil
+	}
+	imps := imports(f)
+	def := ""
+	var wiring [][2]string
+	ast.Inspect(f, func(n ast.Node) bool {
+		as, ok := n.(*ast.AssignStmt)
+		if !ok || len(as.Lhs) != 1 || len(as.Rhs) != 1 {
+			return true
+		}
+		if id, ok := as.Lhs[0].(*ast.Ident); ok && id.Name == "authAddr" {
+			def = c.src(as.Rhs[0])
+			return true
+		}
+		ast.Inspect(as.Rhs[0], func(m ast.Node) bool {
+			call, ok := m.(*ast.CallExpr)
+			if !ok {
+				return true
+			}
+			se, ok := call.Fun.(*ast.SelectorExpr)
+			if !ok || se.Sel.Name != "NewKeeper" {
+				return true
+			}
+			alias, ok := se.X.(*ast.Ident)
+			if !ok {
+				return true
+			}
+			ip := imps[alias.Name]
+			if !strings.HasPrefix(ip, modPath) {
+				// dependency keeper (SDK / IBC / ethermint): record module-address arguments (e.g. the ethermint EVM keeper's authority)
+				for _, a := range call.Args {
+					if as := c.src(a); strings.Contains(as, "NewModuleAddress(") {
+						wiring = append(wiring, [2]string{c.src(se.X) + ".NewKeeper", as})
+					}
+				}
+				return true
+			}
+			fd := c.findFunc(strings.TrimPrefix(ip, modPath), "", "NewKeeper")
+			if fd == nil {
+				return true
+			}
+			idx, i := -1, 0
+			for _, prm := range fd.Type.Params.List {
+				names := len(prm.Names)
+				if names == 0 {
+					names = 1
+				}
+				for j := 0; j < len(prm.Names); j++ {
+					if prm.Names[j].Name == "authority" {
+						idx = i + j
+					}
+				}
+				i += names
+			}
+			if idx >= 0 && idx < len(call.Args) {
+				wiring = append(wiring, [2]string{c.src(as.Lhs[0]), c.src(call.Args[idx])})
+			}
+			return true
+		})
+		return true
+	})
+	return def, wiring
 }
 
 // c16Shape classifies the body of a handler; req is the name of the request parameter.
